@@ -408,3 +408,79 @@ Section TwoPassProofs.
     contradiction.
   Qed.
 End TwoPassProofs.
+
+(* ---------- exactness over ALL rows of the dataset --------------------------------------------- *)
+
+Section AllRows.
+  Variable R : Type.
+  Variable cell : R -> string -> pv.
+  Variable fv : pv -> pv -> pv -> pv -> res pv.
+  Variable conv : string -> string -> pv -> pv * pv.
+  Notation rowgroup := (rowgroup R).
+
+  (* every cell a condition of the program looks at holds a value, and the operators are the nine of the grammar *)
+  Definition decided_row (dnf : list (list cond)) (r : R) : Prop :=
+    forall g f, In g dnf -> In f g -> is_none (cell r (cname f)) = false /\ In (cop f) ops.
+
+  Lemma all_res_true_sat r g : (forall f, In f g -> is_none (cell r (cname f)) = false /\ In (cop f) ops) ->
+    all_res (row_cond R cell r) g = Ok true -> sat_and R cell r g = true.
+  Proof.
+    induction g as [|f g IH]; intros Hd H; [reflexivity|].
+    cbn [all_res] in H.
+    destruct (row_cond R cell r f) as [b1|e] eqn:E1; cbn [bind] in H; [|discriminate].
+    destruct (all_res (row_cond R cell r) g) as [b2|e] eqn:E2; cbn [bind] in H; [|discriminate].
+    injection H as H. apply andb_true_iff in H. destruct H as [-> ->].
+    unfold sat_and. cbn [forallb]. apply andb_true_iff. split.
+    - destruct (Hd f (or_introl eq_refl)) as [Hn Ho]. unfold sat_cond. apply cond_cell_nonnull; assumption.
+    - apply IH; [intros f' Hf'; apply Hd; right; exact Hf'|reflexivity].
+  Qed.
+
+  Lemma some_res_true_sat r dnf : decided_row dnf r ->
+    some_res (all_res (row_cond R cell r)) dnf = Ok true -> sat_dnf R cell r dnf = true.
+  Proof.
+    induction dnf as [|g dnf IH]; intros Hd H; [discriminate|].
+    cbn [some_res] in H.
+    destruct (all_res (row_cond R cell r) g) as [b1|e] eqn:E1; cbn [bind] in H; [|discriminate].
+    destruct (some_res (all_res (row_cond R cell r)) dnf) as [b2|e] eqn:E2; cbn [bind] in H; [|discriminate].
+    injection H as H. unfold sat_dnf. cbn [existsb]. apply orb_true_iff. apply orb_true_iff in H. destruct H as [-> | ->].
+    - left. apply all_res_true_sat; [intros f Hf; apply (Hd g f (or_introl eq_refl) Hf)|exact E1].
+    - right. apply IH; [intros g' f Hg Hf; apply (Hd g' f (or_intror Hg) Hf)|reflexivity].
+  Qed.
+
+  Lemma filter_flat_map_sub (p : R -> bool) (kf : rowgroup -> bool) rgs :
+    (forall rg, In rg rgs -> kf rg = false -> forall r, In r (rg_rows rg) -> p r = false) ->
+    filter p (flat_map rg_rows (filter kf rgs)) = filter p (flat_map rg_rows rgs).
+  Proof.
+    induction rgs as [|rg rgs IH]; intros H; [reflexivity|].
+    cbn [filter flat_map]. rewrite filter_app.
+    destruct (kf rg) eqn:E.
+    - cbn [flat_map]. rewrite filter_app. f_equal. apply IH. intros x Hx. apply H. right. exact Hx.
+    - rewrite IH by (intros x Hx; apply H; right; exact Hx).
+      assert (filter p (rg_rows rg) = []) as ->; [|reflexivity].
+      pose proof (H rg (or_introl eq_refl) E) as Hr. induction (rg_rows rg) as [|r l IHl]; [reflexivity|].
+      cbn [filter]. rewrite (Hr r (or_introl eq_refl)). apply IHl. intros x Hx. apply Hr. right. exact Hx.
+  Qed.
+
+  (* when no deciding cell is missing, the two-pass read is the filter of ALL rows of the dataset *)
+  Theorem two_pass_all_rows : forall good known rgs f out,
+    leaf_sound good fv -> prog_good good (normalize f) ->
+    (forall rg, In rg rgs -> rg_valid R cell conv (normalize f) rg) ->
+    rows_consistent R rgs ->
+    (forall r, In r (flat_map rg_rows rgs) -> decided_row (normalize f) r) ->
+    two_pass R cell fv conv known rgs f = Ok out ->
+    out = filter (row_keep R cell f) (flat_map rg_rows rgs).
+  Proof.
+    intros good known rgs f out Hleaf Hg Hv Hc Hd H.
+    destruct (two_pass_exact R cell fv conv _ _ _ _ Hc H) as [kept [Ek [-> _]]].
+    unfold filter_row_groups in Ek. destruct (forallb _ _); [|discriminate].
+    apply filter_res_spec in Ek. destruct Ek as [-> Hall].
+    apply filter_flat_map_sub. intros rg Hrg Hk r Hr.
+    destruct (row_keep R cell f r) eqn:Ekeep; [|reflexivity]. exfalso.
+    unfold row_keep, decided in Ekeep.
+    destruct (row_sel R cell (normalize f) r) as [[|]|e] eqn:Es; try discriminate.
+    assert (sat_dnf R cell r (normalize f) = true) as Hs.
+    { apply some_res_true_sat; [apply Hd; apply in_flat_map; exists rg; split; assumption|exact Es]. }
+    destruct (Hall rg Hrg) as [b Hb]. unfold decided in Hk. rewrite Hb in Hk.
+    rewrite (keep_rg_sat R cell fv conv good Hleaf _ _ _ _ Hg (Hv rg Hrg) Hr Hs Hb) in Hk. discriminate.
+  Qed.
+End AllRows.
